@@ -78,6 +78,9 @@ structure DispCfg where
   module : Addr                 -- address of the module account "dispensation"
   blocked : Addr → Bool         -- x/bank's blocked addresses (module accounts + node blacklist)
   validAddr : Addr → Bool       -- `sdk.AccAddressFromBech32` succeeds
+  canon : Addr → Addr           -- the account a spelling decodes to (bech32 is case-insensitive:
+                                -- an all-upper-case spelling is valid and names the same account);
+                                -- record, distribution and claim KEYS use the spelling as written
 
 structure DispState where
   pending : Store Rec
@@ -211,7 +214,7 @@ inductive Outcome where
 def payOneSent (cfg : DispCfg) (height : Int) (s : DispState) (r : Rec) : M (DispState × Outcome) :=
   match moveRec s false r height with
   | (s1, false) =>
-    match sendCoins s1.bank r.rcpt cfg.module r.coins with
+    match sendCoins s1.bank (cfg.canon r.rcpt) cfg.module r.coins with
     | none => .error .other               -- panic("Unable to set Distribution Records to completed")
     | some bank'' => .ok ({ s1 with bank := bank'' }, .skipped)
   | (s1, true) =>
@@ -220,7 +223,7 @@ def payOneSent (cfg : DispCfg) (height : Int) (s : DispState) (r : Rec) : M (Dis
 /-- one iteration of the loop of `DistributeDrops` on a record collected beforehand -/
 def payOne (cfg : DispCfg) (height : Int) (s : DispState) (r : Rec) : M (DispState × Outcome) :=
   if !cfg.validAddr r.rcpt then .ok (s, .skipped) else
-  match sendModuleToAccount cfg.blocked s.bank cfg.module r.rcpt r.coins with
+  match sendModuleToAccount cfg.blocked s.bank cfg.module (cfg.canon r.rcpt) r.coins with
   | none =>
     match moveRec s true r height with
     | (_, false) => .error .other         -- panic("Unable to set Distribution Records to Failed")
